@@ -246,6 +246,21 @@ func (cc *Session) handleHandshakeResponse(info HandshakeResponseInfo) error {
 	return nil
 }
 
+// closeByIdleTimer is the time wheel callback of an idle session. It runs on the
+// timer's goroutine, possibly while the session goroutine is executing a command, so
+// it only shuts the client connection down: the session goroutine then fails its read
+// (or the write of its current response) and releases the backend connections itself
+// in Close(). Releasing them from here raced with the command in flight: connections
+// were recycled twice, or taken after the release and never given back.
+func (cc *Session) closeByIdleTimer() {
+	defer func() {
+		if r := recover(); r != nil {
+			log.Warn("[Session.closeByIdleTimer] Panic recovered: %v", r)
+		}
+	}()
+	cc.c.Close()
+}
+
 // Close close session with it's resources
 func (cc *Session) Close() {
 	// 使用 defer 捕获 panic
@@ -320,7 +335,7 @@ func (cc *Session) Run() {
 			return
 		}
 
-		cc.proxy.tw.Add(cc.proxy.sessionTimeout, cc, cc.Close)
+		cc.proxy.tw.Add(cc.proxy.sessionTimeout, cc, cc.closeByIdleTimer)
 		cc.manager.GetStatisticManager().AddReadFlowCount(cc.namespace, len(data))
 		cc.executor.SetContextNamespace()
 		cc.clearKsConns(cc.executor.nsChangeIndexOld)
